@@ -6,8 +6,10 @@
    in one or more versions), 1/2/4 buckets, one or two bloom words, with and without undefined
    symbols in front, every input order for sysv-only; the loader's lookups (glibc do_lookup_x
    transcribed) must find every defined symbol (by name, and by name+version) and must answer
-   "none" for the undefined name and for an absent name with any critical hash value.  Five
-   deliberately broken builders must each be rejected (anti-vacuity).
+   "none" for the undefined name and for an absent name with any critical hash value.  The bloom
+   word is selected as glibc does ((h/64) & (maskwords-1)) while wild's writer uses % bloom_count:
+   a builder with 3 bloom words must be rejected.  Seven deliberately broken builders / parameter
+   sets must each be rejected (anti-vacuity).
 2. Observed-state validation (specs/HashTablesObs.tla, the same lookup operators at ELF64 sizes):
    generated shared objects (x86-64, AArch64) and --export-dynamic executables with 0..1000 (more
    in the thorough tier) exported names crafted to collide (one bucket, full 32-bit dl_new_hash
@@ -53,7 +55,7 @@ META = {
     "engine": "tlc",
 }
 
-BROKEN = ["unsorted", "stopearly", "symoff", "bloomshift", "sysvlast"]
+BROKEN = ["unsorted", "stopearly", "symoff", "bloomshift", "sysvlast", "bloomwords", "bloomwords_assert"]
 IMPORTS = ["getpid", "strlen", "abs", "atoi", "labs", "toupper", "tolower"]
 LDSO = "/lib64/ld-linux-x86-64.so.2"
 
@@ -276,6 +278,7 @@ def wants(c):
 # TLC over observations
 
 _OBS_RE = re.compile(r'^<<"C08OBS", "((?:[^"\\]|\\.)*)", (\d+), (\d+), (\d+), (\d+)>>$')
+_HDR_RE = re.compile(r'^<<"C08HDR", "((?:[^"\\]|\\.)*)", "(\w+)", (\d+)>>$')
 _FAIL_RE = re.compile(r'^<<"C08FAIL", "((?:[^"\\]|\\.)*)", "(gnu|sysv)", "(def|probe)", (\d+), "((?:[^"\\]|\\.)*)", '
                       r'\[st \|-> "(\w+)", idx \|-> (\d+)\]>>$')
 
@@ -290,12 +293,16 @@ def tlc_check_observations(obs_list, d, workers, timeout, name):
         raise ToolError(f"TLC timed out on {len(obs_list)} observations after {timeout}s")
     res = {}
     # TLC pretty-prints long tuples over several lines: take whole <<"C08...>> records
-    for m0 in re.finditer(r'<<\s*"C08(?:OBS|FAIL)",.*?>>', r.out, re.S):
+    for m0 in re.finditer(r'<<\s*"C08(?:OBS|FAIL|HDR)",.*?>>', r.out, re.S):
         ln = re.sub(r"\s+", " ", m0.group(0)).replace("<< ", "<<").replace(" >>", ">>")
         m = _OBS_RE.match(ln)
         if m:
             res.setdefault(m.group(1), {"fails": []}).update(
                 defined=int(m.group(2)), probes=int(m.group(3)), nbad_gnu=int(m.group(4)), nbad_sysv=int(m.group(5)))
+            continue
+        m = _HDR_RE.match(ln)
+        if m:
+            res.setdefault(m.group(1), {"fails": []})["hdr"] = (m.group(2), int(m.group(3)))
             continue
         m = _FAIL_RE.match(ln)
         if m:
@@ -308,7 +315,7 @@ def tlc_check_observations(obs_list, d, workers, timeout, name):
     missing = [i for i in ids if i not in res or "defined" not in res[i]]
     if missing:
         raise ToolError(f"TLC did not evaluate observations {missing[:5]} (of {len(ids)}):\n{r.out[-3000:]}")
-    any_fail = any(v["fails"] for v in res.values())
+    any_fail = any(v["fails"] or v.get("hdr") for v in res.values())
     if any_fail != (r.violated is not None):
         raise ToolError(f"TLC verdict ({r.violated}) and printed failures disagree:\n{r.out[-2000:]}")
     for v in res.values():
@@ -326,6 +333,11 @@ def cross_check_encoding(raw, tres):
     if tres["defined"] != nd or tres["probes"] != len(raw["probes"]):
         raise ToolError(f"{raw['id']}: TLC saw {tres['defined']} defined / {tres['probes']} probes, "
                         f"python {nd} / {len(raw['probes'])}")
+    g = raw["gnu"]
+    mw = g["maskwords"]
+    hdr_bad = bool(raw["want_gnu"] and g["present"] and not g["malformed"] and g["nbuckets"] and mw and mw & (mw - 1))
+    if hdr_bad != bool(tres.get("hdr")):
+        raise ToolError(f"{raw['id']}: TLC and the integer reference disagree on the header assertion (maskwords={mw})")
     if ref != got:
         raise ToolError(f"{raw['id']}: TLC and the integer reference disagree: only TLC {sorted(got - ref)[:5]}, "
                         f"only reference {sorted(ref - got)[:5]}")
@@ -405,6 +417,18 @@ def observed(ctx, cov, rng, d, wild):
     birthday_pairs = hashobs.birthday_gnu(rng, 150000 if ctx.quick else 600000)
     cov["birthday_full_hash_collisions_found"] = len(birthday_pairs)
     sizes = [0, 1, 2, 3, 5, 17, 100, 1000]
+    # the number of exported symbols also selects derived table parameters (bucket count, possibly
+    # bloom size ...): walk through the ranges between powers of two, sparsely, plus seeded values
+    band_sizes = [33, 64, 70, 80, 90, 120, 128, 140, 150, 180, 200, 215, 260, 300, 400]
+    band_sizes += sorted(rng.sample(range(6, 131), 3)) + [rng.randrange(131, 520)]
+    band_variants = [
+        dict(kind="so", arch="x86_64", style="both", strategy="plain", n_dup=1, n_imp=1),
+        dict(kind="so", arch="x86_64", style="gnu", strategy="multi", n_dup=0, n_imp=0),
+        dict(kind="so", arch="aarch64", style="default", strategy="bucket", n_dup=2, n_imp=0),
+        dict(kind="exe-pie", style="both", strategy="plain"),
+        dict(kind="so", arch="x86_64", style="default", strategy="birthday", n_dup=0, n_imp=3),
+        dict(kind="exe", style="gnu", strategy="plain"),
+    ]
     plan = []
     # a fixed backbone (every size as a shared object with both tables, crafted collisions,
     # versioned duplicates) plus seeded random variation
@@ -426,6 +450,14 @@ def observed(ctx, cov, rng, d, wild):
             plan.append((n, dict(f)))
         for _ in range(1 if ctx.quick else 12):
             plan.append((n, None))
+    for i, n in enumerate(band_sizes):
+        if ctx.quick:
+            plan.append((n, dict(band_variants[i % len(band_variants)])))
+        else:
+            for j in range(4):
+                plan.append((n, dict(band_variants[(i + j) % len(band_variants)])))
+            for _ in range(4):
+                plan.append((n, None))
     if not ctx.quick:
         plan += [(5000, dict(kind="so", arch="x86_64", style="both", strategy="plain", n_dup=5, n_imp=1, threads=t))
                  for t in (1, 8)]
@@ -534,6 +566,15 @@ def observed(ctx, cov, rng, d, wild):
                                    "gnu": {k: o["gnu"][k] for k in ("present", "nbuckets", "symoffset", "maskwords", "shift")},
                                    "sysv": {k: o["sysv"][k] for k in ("present", "nbucket", "nchain")},
                                    "first_names": c.names[:4]})
+        if t.get("hdr"):
+            what, val = t["hdr"]
+            ctx.verdict.report(
+                f"gnu:bloom-{what}-not-power-of-two:{c.kind}:{c.style}",
+                f"{c.id}: .gnu.hash has {what}={val}, not a power of two: glibc's _dl_setup_hash asserts "
+                f"(bitmask_nwords & (bitmask_nwords - 1)) == 0 and picks the bloom word with & ({what} - 1); "
+                f"{t['defined']} defined dynamic symbols",
+                lambda c=c, o=o, t=t: save_replay(PROP, f"hdr-{c.id}", c.dir, files={"observation.json": json.dumps(o)},
+                                                  meta={"args": c.args, "header": t["hdr"], "id": c.id}))
         if t["fails"]:
             by = {}
             for f in t["fails"]:
@@ -557,7 +598,11 @@ def observed(ctx, cov, rng, d, wild):
             r, fails, done = hashobs.run_host(host, c.out, c.expect, c.dir, "wild")
             if not done:
                 msg = (r.out + r.err)[-300:]
-                if "undefined symbol" in msg and any(nm in msg for nm in c.names):
+                if "bitmask_nwords" in msg or ("Assertion" in msg and "dl-lookup" in msg):
+                    ctx.verdict.report(f"dlopen:loader-assertion-bitmask_nwords:{c.style}",
+                                       f"{c.id}: the glibc loader rejects the library's hash table: {msg.strip()[-200:]}",
+                                       lambda c=c: save_replay(PROP, f"dl-{c.id}", c.dir, meta={"args": c.args, "out": msg}))
+                elif "undefined symbol" in msg and any(nm in msg for nm in c.names):
                     ctx.verdict.report(f"dlopen:undefined-symbol:{c.style}:{c.strategy}", f"{c.id}: {msg}",
                                        lambda c=c: save_replay(PROP, f"dl-{c.id}", c.dir, meta={"args": c.args, "out": msg}))
                 else:
@@ -581,22 +626,39 @@ def observed(ctx, cov, rng, d, wild):
             exe_runs += 1
             if r.rc != 0:
                 msg = (r.out + r.err)[-300:]
-                if "undefined symbol" in msg or "symbol lookup error" in msg:
+                if "bitmask_nwords" in msg or ("Assertion" in msg and "dl-lookup" in msg):
+                    ctx.verdict.report(f"exe-run:loader-assertion-bitmask_nwords:{c.kind}:{c.style}",
+                                       f"{c.id}: the glibc loader rejects the executable's hash table: {msg.strip()[-200:]}",
+                                       lambda c=c: save_replay(PROP, f"run-{c.id}", c.dir, meta={"args": c.args, "out": msg}))
+                elif "undefined symbol" in msg or "symbol lookup error" in msg:
                     ctx.verdict.report(f"exe-run:undefined-symbol:{c.kind}:{c.style}:{c.strategy}", f"{c.id}: {msg}",
                                        lambda c=c: save_replay(PROP, f"run-{c.id}", c.dir, meta={"args": c.args, "out": msg}))
                 else:
                     unattributed.append({"case": c.id, "what": f"run rc={r.rc}", "msg": msg})
+    def gnu_defined(c):
+        return sum(1 for x in raws[c.id]["syms"][1:] if x["defd"]) if raws[c.id]["gnu"]["present"] else -1
+    dl_bands = {"65..96": 0, "129..224": 0, "257..480": 0}
+    for c in cases:
+        if c.arch == "x86_64" and c.kind == "so":
+            nd = gnu_defined(c)
+            for b in dl_bands:
+                lo, hi = map(int, b.split(".."))
+                if lo <= nd <= hi:
+                    dl_bands[b] += 1
+    if min(dl_bands.values()) == 0:
+        raise ToolError(f"generator: no dlopen-checked library with .gnu.hash in a symbol-count range: {dl_bands}")
     for u in unattributed:
         log(f"note (not attributed to C08): {u}")
 
     cov["traces_validated_against_impl"] = validated
     cov["observations"] = {"wild_outputs": validated, "gnu_ld_reference_outputs": n_ref, "corrupted_demo": len(demo_out),
                            "lookups_evaluated_by_tlc": n_lookups, "tlc_wall_s": round(tr.wall, 1)}
-    cov["real_loader"] = {"libraries_dlopened": dl_checked, "dlsym_dlvsym_calls": dl_syms, "executables_run": exe_runs,
+    cov["real_loader"] = {"libraries_dlopened": dl_checked, "dlsym_dlvsym_calls": dl_syms, "executables_run": exe_runs, "dlopened_with_gnu_hash_by_defined_count": dl_bands,
                           "unattributed_runtime_anomalies": unattributed[:5]}
     cov["binding_demo"] = demo_out
     cov["case_matrix"] = {
         "sizes": sorted({c.n for c in cases}),
+        "defined_dynsym_counts": sorted({sum(1 for x in raws[c.id]["syms"][1:] if x["defd"]) for c in cases}),
         "styles": sorted({c.style for c in cases}), "kinds": sorted({c.kind for c in cases}),
         "archs": sorted({c.arch for c in cases}), "strategies": sorted({c.strategy for c in cases}),
         "with_versioned_duplicates": sum(1 for c in cases if c.n_dup), "with_undefined_in_front": sum(1 for c in cases if c.n_imp)}
